@@ -171,7 +171,8 @@ def _native_delete(form):
 
 
 def unit_add_relation(U):
-    for form, pf, cf, dup in (("features", False, False, False), ("ids", False, False, False), ("features", True, True, False), ("features", False, True, False), ("features", False, False, True)):
+    for form, pf, cf, dup in (("features", False, False, False), ("ids", False, False, False), ("features", True, True, False), ("features", False, True, False), ("features", False, False, True),
+                              ("ids-missing-child", False, False, False), ("ids-missing-parent", False, False, False)):
         it = _it()
         lv = z3.Int("level")
 
@@ -183,7 +184,15 @@ def unit_add_relation(U):
                 if dup and str(q).strip().upper().startswith("INSERT INTO RELATIONS"):
                     raise sqlite3.IntegrityError("UNIQUE constraint failed")
             db = blank_db(ghostdb.GhostConn(on_execute=on_execute))
-            it.contracts[I.FeatureDB.__getitem__] = lambda interp, a, k: par if a[1] is par.id else ch
+            looked = []
+
+            def getitem(interp, a, k):
+                looked.append(a[1])
+                missing = {"ids-missing-child": ch.id, "ids-missing-parent": par.id}.get(form)
+                if missing is not None and a[1] is missing:
+                    raise gffutils.FeatureNotFoundError(a[1])
+                return par if a[1] is par.id else ch
+            it.contracts[I.FeatureDB.__getitem__] = getitem
             calls = []
 
             class Fn(object):
@@ -200,7 +209,7 @@ def unit_add_relation(U):
                 kw["parent_func"] = Fn(new_p)
             if cf:
                 kw["child_func"] = Fn(new_c)
-            ctx.stash.update(par=par, ch=ch, new_p=new_p, new_c=new_c, db=db, calls=calls)
+            ctx.stash.update(par=par, ch=ch, new_p=new_p, new_c=new_c, db=db, calls=calls, looked=looked)
             a1, a2 = (par, ch) if form == "features" else (par.id, ch.id)
             return it.call(I.FeatureDB.add_relation, [db, a1, a2, SInt(lv)], kw)
 
@@ -215,13 +224,32 @@ def unit_add_relation(U):
             except sqlite3.IntegrityError:
                 dupok = True
             rel2 = set(tuple(r) for r in db.conn.execute("SELECT parent, child, level FROM relations"))
-            bad = rel != {("a", "b", 1)} or not dupok or rel2 != rel or db["b"].attributes.get("Parent") != ["a"]
-            return {"expected": "{(a,b,1)}, duplicate raises IntegrityError, child rewritten", "observed": [sorted(rel), dupok, dict(db["b"].attributes)], "violates": bad}
+            # ids that are not (or no longer) in the database are refused and nothing is stored
+            refused = []
+            db.delete("b", make_backup=False)
+            for a1, a2 in (("a", "b"), ("b", "a"), ("a", "never_there")):
+                try:
+                    db.add_relation(a1, a2, 1)
+                    refused.append("accepted (%s, %s)" % (a1, a2))
+                except gffutils.FeatureNotFoundError:
+                    refused.append("refused")
+            rel3 = set(tuple(r) for r in db.conn.execute("SELECT parent, child, level FROM relations"))
+            bad = rel != {("a", "b", 1)} or not dupok or rel2 != rel or refused != ["refused"] * 3 or rel3 != set()
+            return {"expected": "{(a,b,1)}, duplicate raises IntegrityError, child rewritten; after delete('b'): add_relation with b or an unknown id raises FeatureNotFoundError and stores nothing",
+                    "observed": [sorted(rel), dupok, refused, sorted(rel3)], "violates": bad}
         base = "C10.add_relation[%s,pf=%s,cf=%s,dup=%s]" % (form, pf, cf, dup)
         for p in U.explore(run, it):
             st = p.ctx.stash
             effs = IM.classify(p.ctx.effects)
             stm = [e for e in effs if e.kind in ("insert", "update", "delete")]
+            if form.startswith("ids-missing"):
+                ok = p.kind == "raise" and isinstance(p.value, gffutils.FeatureNotFoundError) and not stm
+                U.prove(base + "#p%d" % p.index, "an id that is not in the database ==> FeatureNotFoundError (from the look-up), nothing written", [], z3.BoolVal(bool(ok)), {}, replay=replay)
+                continue
+            if form == "ids":
+                lk = st["looked"]
+                U.prove(base + ".lookup#p%d" % p.index, "ids given as strings are looked up in the database (both of them) before anything is written", [],
+                        z3.BoolVal(len(lk) == 2 and any(x is st["par"].id for x in lk) and any(x is st["ch"].id for x in lk)), {}, replay=replay)
             if dup:
                 ok = p.kind == "raise" and isinstance(p.value, sqlite3.IntegrityError) and len(stm) == 1 and not [e for e in effs if e.kind == "commit"]
                 U.prove(base + "#p%d" % p.index, "an existing triple ==> IntegrityError, nothing else written, no commit", [], z3.BoolVal(bool(ok)), {}, replay=replay)
